@@ -155,6 +155,27 @@ CLAIMED.update({
   ref="DESIGN.md 4/C20, 9"),
 })
 
+CLAIMED.update({
+ "C10": dict(
+  text="Deductive proof of three places where the validator registry is written or rebuilt: (1) epoch results (the callback of "
+       "setNewIdentitiesAttributes): an address is registered as validated exactly when its new status is Verified, Newbie or Human, nobody is "
+       "switched online there and delegations are copied only for validated identities; (2) applyStatusSwitch: an address goes online only if, in "
+       "the same iteration, the stored registry said it is validated or the cache said it is a pool, and only listed online addresses go offline; "
+       "(3) ValidatorsCache.UpdateFromIdentityStateDiff approves a pool it creates exactly as the rebuild does (validated and not discriminated "
+       "owner, from this diff's entry if there is one). Obligations are attached to the call sites of the registry writers (check-at).",
+  note="Only these call sites: equality of the incremental view and the rebuild as a whole (sizes, sorted validators, committees), kills and "
+       "delegation switches, and histories are not decided. Trusted: golang-set, A-cache.",
+  ref="DESIGN.md 4/C10, 9"),
+ "C11": dict(
+  text="Deductive proof of the acceptance gates of sync artifacts: ReadTreeFrom2 (snapshot import) refuses unless the imported tree's root equals "
+       "the advertised root and the tree validates, clears the target database before every refusal once the importer was opened and never clears "
+       "it on success; fastSync.validateIdentityState replays exactly the block's identity diff at the block's height, refuses unless the resulting "
+       "root equals the header's identity root and rolls the replayed diff back before refusing.",
+  note="Trusted: iavl importer/tree (WorkingHash, ValidateTree, LoadVersion), archiver, ClearDb deletes everything (ghost counter). Not decided: "
+       "that the diffs produced by Precommit reproduce the root (diff production vs replay), export/import round trip, histories with reorgs.",
+  ref="DESIGN.md 4/C11, 9"),
+})
+
 PENDING = {
 }
 
